@@ -144,7 +144,9 @@ def cosim_controller(cfg, seed, ncycles):
             lines.append(" ".join("%d %d %d" % r for r in reqs))
             yield
     run_simulation(dut, gen())
-    mo = core.run_driver("controller", lines)[2:]
+    mo_all = core.run_driver("controller", lines)
+    wf2 = mo_all[0].strip() == "cfg wf2=1"     # the configuration meets the hypotheses of C02.controller_dfi_legal
+    mo = mo_all[2:]
     n = min(len(mo), len(obs))
     mismatch = None
     for i in range(n):
@@ -155,7 +157,7 @@ def cosim_controller(cfg, seed, ncycles):
                     else "dfi.p%d.%s" % ((k - 4 * nbm) // 8, ["cs_n", "bank", "address", "cas_n", "ras_n", "we_n", "rddata_en", "wrdata_en"][(k - 4 * nbm) % 8]))
             mismatch = dict(cycle=i, signal=what, impl=a[k], model=b[k], inputs=lines[max(2, i - 3) + 0:i + 3])
             break
-    return dict(mismatch=mismatch, lines=lines, obs=obs[:n], cycles=n, nbm=nbm)
+    return dict(mismatch=mismatch, lines=lines, obs=obs[:n], cycles=n, nbm=nbm, wf2=wf2)
 
 
 def mon_cfg_line(cfg):
